@@ -1,6 +1,8 @@
 (* drv_ptr.ml — JSON Pointer domain (C12).  Line: "<tree jvtext> op;op;…" with
-   g<hexptr> get, G<hexptr> getf("%s"), H<hexptr> getf(pointer as format),
-   s<hexptr>=<jvtext> set, S…/T… the two setf forms.  See harness/drv_ptr.c. *)
+   g<hexptr> get; G H I J D <hexptr> getf in five format shapes whose expansion is <ptr>
+   ("%s" | pointer as format | "/%s" | "%s%s" | "%s/%d": for the model they are all
+   getf on the formatted bytes); s<hexptr>=<jvtext> set; S T U V E the same five shapes of
+   setf.  See harness/drv_ptr.c. *)
 open Model
 open Util
 
@@ -19,8 +21,8 @@ let parse_op s =
   let body = String.sub s 1 (String.length s - 1) in
   match s.[0] with
   | 'g' -> OGet (bytes_of_hex body)
-  | 'G' | 'H' -> OGetf (Some (bytes_of_hex body))
-  | 's' | 'S' | 'T' ->
+  | 'G' | 'H' | 'I' | 'J' | 'D' -> OGetf (Some (bytes_of_hex body))
+  | 's' | 'S' | 'T' | 'U' | 'V' | 'E' ->
     let i = String.index body '=' in
     let p = bytes_of_hex (String.sub body 0 i) in
     let v = Jvtext.jv_of_string (String.sub body (i + 1) (String.length body - i - 1)) in
